@@ -140,7 +140,11 @@ func StaticWorker(p *Prop, tier string, shard, n int, journalPath string, resume
 	p.Enumerate(tier, func(spec string) {
 		sum.Enumerated++
 		h := Hash64(spec)
-		if int(h%uint64(n)) != shard {
+		if p.RoundRobin {
+			if (sum.Enumerated-1)%n != shard {
+				return
+			}
+		} else if int(h%uint64(n)) != shard {
 			return
 		}
 		if _, has := seen[h]; has {
